@@ -10,6 +10,26 @@ TRUST = ("Trusted: Lean 4.33 kernel (axioms ⊆ {propext, Classical.choice, Quot
 
 # id -> (category, text, note, technique, design_ref)
 CLAIMS = {
+ "C01": ("proof",
+         "Lean proof for ALL histories, all pool behaviours (Get picks any pooled object or allocates; gc drops any subset) and 1..n engines: the pooled machine, parameterised by facts about which fields every acquire path resets and every release clears, produces exactly the outputs of the pool-free machine (C01_history_independence), a render leaves every cache and cached object unchanged (C01_render_preserves_cache), no cached object is ever pooled, no double release, no stale field is ever read. "
+         "Tie: histories on real engines (register, parse-only, ok/failing renders, cache toggles, GC, several engines) compared per render with a fresh engine, with a pristine child process and with the Lean model under LIFO/FIFO/random pool oracles.",
+         TRUST + "The field/reset tables of the facts record are hand-transcribed (cross-checked with a go/ast script, validated by the correspondence); sync.Pool's real scheduling is over-approximated by the oracle; the per-template render function of this model is a small evaluator (the full renderer is the separate pipeline model).",
+         "Lean 4 proof (simulation invariant over all operation histories and pool oracles) + differential correspondence + pristine-process oracle", "DESIGN.md §4 C01"),
+ "C02": ("proof",
+         "PARTIAL by nature (a Lean model cannot exhibit the Go memory model, the runtime's race / concurrent-map-write detectors or sync.Pool internals). Proved for EVERY schedule: lockset race-freedom of the access tables regenerated from the Go source (C02_lockset, C02_facts_current), schedule-independence of every call's result for the property's workload (C02_serial_equiv_static, C02_concurrent_equals_serial) and that relative names resolve from the call's own context (C02_relative_names); pinned-tree counterexamples; the lost-update interleaving of Load/RegisterString is modelled for both values of the re-check fact. "
+         "Tie: typed-AST extractor of every shared access with its lock region (regenerated each run), multi-goroutine stress in a child process (also under -race) checked against serially computed outputs with per-goroutine markers, deterministic replay of the lost-update schedule with a blocking loader.",
+         TRUST + "Not covered by the emitter: node trees, RenderContext and the other pooled objects, user callbacks. Residual (documented): a relative name resolves against the template the render call started from, not the template containing the tag.",
+         "Lean 4 proof (lockset + invariant over all schedules) + regenerated lock facts + race-detector stress", "DESIGN.md §4 C02"),
+ "C18": ("proof",
+         "Lean frame theorem (C18_frame: any sequence of heap operations that writes only addresses allocated after entry leaves every caller address unchanged; compositional), aliasing lemmas for slice windows and append into spare capacity, context-copy lemma, and C18_sites_ok: every store / append / copy / delete / sort / reflect setter site in the render path, regenerated from the Go source with its provenance, writes only fresh, context-private or lock-guarded cache memory (decide over the generated table). "
+         "Tie: deep snapshots (incl. slice capacity tails) of nested typed/untyped context data before and after ≈ 27 000 renders covering every pair of list/map filters, set/loop/include/macro shadowing, serial and concurrent sharing.",
+         TRUST + "Provenance classification is intra-procedural and conservative; user methods called through attribute access may mutate their receivers (callbacks, excluded by the property).",
+         "Lean 4 proof (frame rule) + regenerated write-site provenance table + snapshot oracle", "DESIGN.md §4 C18"),
+ "C19": ("proof",
+         "Lean theorems for every input of the stated type: idempotence of upper/lower/trim/capitalize/title (under case-map laws checked against Go's unicode tables for every code point on every run), reverse involution and length preservation (with Go's exact UTF-8 decoding), sort = ordered permutation (and canonical), length = number of items first/last/slice/for observe, split∘join, default, merge, keys, slice = Twig's index rules for every 64-bit start/length (C19_slice_total), round = exact decimal rounding for common/ceil/floor (C19_round_exact, C19_round_mode_exact), abs, number_format digit grouping. "
+         "Tie: ≈ 190 000 model comparisons per quick run through real templates, plus the equations checked directly on implementation output. Known findings (pinned by the repo's own tests): number_format decimal ties, multi-character split, split of an empty join.",
+         TRUST + "Trusted: strings.Map/Fields/TrimSpace/regexp.Split read into rune-level definitions; FormatFloat/ParseFloat round-trip of decimals with ≤ 15 digits; binary evaluation exact away from ties for number_format.",
+         "Lean 4 proof (per-filter algebraic laws for all inputs) + differential correspondence", "DESIGN.md §4 C19"),
  "C04": ("proof",
          "Lean theorems over ALL byte strings about the exact model of both tokenizers (C04_text_only, C04_chunks, C04_chunks_texts, C04_comment_inert_tokens): literal chunks come out as TEXT tokens exactly once, unmodified, in order; comments contribute one inert token triple. "
          "The model is tied to the code on every run by the token-stream and whole-pipeline (scan→parse→render in Lean) correspondence plus implementation-only oracles (chunks interleaved with marker values, comment/verbatim inertness with spy callbacks).",
